@@ -195,3 +195,59 @@ def canon_keep(repo: Repo, ci, fn, keep, subst=False):
         v._rel = ci.module.rel if ci is not None else None
         _GCACHE[k] = v
     return _GCACHE[k]
+
+
+class Trial:
+    """records the obligations a rule function would emit, so that the same rule can be evaluated on several equivalent views of the code
+    and the outcome of the view on which the construct is recognised best is kept (a fact established on any view holds for the function)"""
+
+    def __init__(self, chk):
+        self._chk = chk
+        self.calls = []
+        self.known = chk.known
+        self.prop = chk.prop
+
+    def ok(self, *a, **k): self.calls.append(("ok", a, k))
+    def fail(self, *a, **k): self.calls.append(("fail", a, k))
+    def unknown(self, *a, **k): self.calls.append(("unknown", a, k))
+    def note(self, *a, **k): self.calls.append(("note", a, k))
+
+    def add(self, rule, instance, cond, site="", reason_ok="", reason_fail="", construct=""):
+        (self.ok if cond else self.fail)(rule, instance, site, reason_ok if cond else reason_fail, construct)
+        return cond
+
+    def decide(self, rule, instance, holds, recognised, site="", reason_ok="", reason_fail="", construct=""):
+        if holds:
+            self.ok(rule, instance, site, reason_ok, construct)
+        elif recognised:
+            self.fail(rule, instance, site, reason_fail, construct)
+        else:
+            self.unknown(rule, instance, site, "construct not recognised in any normal form (" + reason_fail[:160] + ")", construct)
+        return holds
+
+    def score(self):
+        return (sum(1 for c in self.calls if c[0] == "fail"), sum(1 for c in self.calls if c[0] == "unknown"))
+
+    def commit(self):
+        for kind, a, k in self.calls:
+            getattr(self._chk, kind)(*a, **k)
+
+
+def best_of(chk, candidates, rule_fn):
+    """rule_fn(trial, candidate) for each candidate view; the trial with the fewest violations (then fewest unknowns) is committed.
+    A candidate on which the rule raises AnchorError counts as 'not recognised'; if every candidate raises, the first error propagates."""
+    best, first_err = None, None
+    for cand in candidates:
+        t = Trial(chk)
+        try:
+            rule_fn(t, cand)
+        except AnchorError as e:
+            first_err = first_err or e
+            continue
+        if best is None or t.score() < best.score():
+            best = t
+        if t.score() == (0, 0):
+            break
+    if best is None:
+        raise first_err
+    best.commit()
